@@ -711,7 +711,10 @@ def step (d : DState) (l : Line) : DState × List Verdict :=
       let idx := List.range kinds.length
       let (d, rlast) := (idx.zip (kinds.zip locs)).foldl attempt (d, Res.ok)
       let want := match rlast with | .placed _ _ => "placed" | .exist => "exist" | x => resStr x
-      conclude d l (cmp "meta/res" want (implRes res)) (lostMonitor d false)
+      -- a serialised Sync that clears the flag first cannot lose the flag of a later write
+      let lostNow : List Verdict := if d.f.syncSerial && kinds.contains "r" then
+        [mono "sync_durable" "a volume holds data written after its last fsync but is no longer marked dirty"] else []
+      conclude d l (if lostNow.isEmpty then cmp "meta/res" want (implRes res) else lostNow) (lostMonitor d false)
     | _, _, _, _, _ => (d, [.badline "syncrace"])
   | "resizepark" =>
     match getNat a "v", getNat a "n", getNat o "parked" with
